@@ -10,7 +10,7 @@ INFO = {
                   'rtamt.semantics.iastl.dense_time.offline.ast_visitor', 'rtamt.semantics.iastl.dense_time.online.predicate_operation / ast_visitor',
                   'rtamt.spec.stl.{discrete,dense}_time.specification factories (semantics=...)', 'rtamt.spec.iastl.*.specification factories',
                   'set_var_io_type, rtamt.syntax.node.ltl.variable / predicate (in_vars/out_vars propagation)'],
-    'bounds': {'quick': '5 semantics x 4 monitor kinds; io assignment of x,y in {input,output,default}, z output/input; 6 comparison operators x operand shapes '
+    'bounds': {'quick': 'io types declared once, or declared and changed again (up to 3 set_var_io_type calls per variable); 5 semantics x 4 monitor kinds; io assignment of x,y in {input,output,default}, z output/input; 6 comparison operators x operand shapes '
                         '{x|c, x|y, x+y|c, x-c|y, c|c}; contexts bare / not / and-with-other-predicate / once[0,1] / always[0,1]; N=3 (discrete), n=2..3 samples (dense); '
                         'the full product is covered by two complete sub-products (semantics x io, operator x shape x context) plus a seeded sample of the rest',
                'thorough': 'full product for discrete time, larger sample for dense time, N=4'},
@@ -31,7 +31,7 @@ def _sem(name):
 
 
 def _io_sets(vs, io):
-    inputs = {v for v in vs if io.get(v) == 'input'}
+    inputs = {v for v in vs if io.get(v, '').split('>')[-1] == 'input'}
     return inputs, set(vs) - inputs
 
 
@@ -43,7 +43,7 @@ def h_dt(f, N, sem, io, mode):
 
     def body(env):
         A = env.A
-        s = dt.make_spec('combined', 'out = ' + text(f), vs, io={v: t for v, t in io.items() if t in ('input', 'output')},
+        s = dt.make_spec('combined', 'out = ' + text(f), vs, io={v: t for v, t in io.items() if t != 'default'},
                          semantics=_sem(sem), pastify=(mode == 'pastified'))
         w = dt.trace(env, vs, N)
         if uf:
@@ -75,7 +75,7 @@ def h_ct(f, ns, sem, io, mode):
 
     def body(env):
         A = env.A
-        s = ct.make_spec('combined', 'out = ' + text(f), vs, io={v: t for v, t in io.items() if t in ('input', 'output')},
+        s = ct.make_spec('combined', 'out = ' + text(f), vs, io={v: t for v, t in io.items() if t != 'default'},
                          semantics=_sem(sem))
         sigs = {v: ct.signal(env, v, n, 'zero') for v, n in zip(vs, ns)}
         args = [[v, [list(p) for p in sigs[v]]] for v in vs]
@@ -192,6 +192,21 @@ def obligations(tier, rng):
                     if quick and mon == 'ct-offline' and sem not in ('output_robustness', 'input_vacuity'):
                         continue
                     add(p, 'bare', p, sem, io, mon)
+    # (2d) an io type that is set and then CHANGED before parse(): the last declaration counts
+    P1 = ('implies', ('geq', X, ('const', 3.0)), ('geq', Y, ('const', 0.5)))
+    for p in [P1, ('geq', ('sub', X, Y), C1), ('once_t', ('leq', Y, C1), 0, 1)]:
+        for sem in SEMS:
+            for xa, ya in [('input', 'input>output'), ('output>input', 'output'), ('input>output>input', 'output>input>output'), ('output>input', 'input>output')]:
+                io = {'x': xa, 'y': ya}
+                for mon in mons:
+                    if mon == 'ct-online' and sem != 'standard' and p is not P1:
+                        continue
+                    dense = mon.startswith('ct')
+                    name = '%s/%s/changed-io:x=%s,y=%s/%s' % (mon, sem, xa, ya, text(p))
+                    if dense:
+                        out.append(ob('C06', 'ct', name, f=p, ns=[2, 2], sem=sem, io=io, mode=mon.split('-')[1], max_paths=20000, wall=600))
+                    else:
+                        out.append(ob('C06', 'dt', name, f=p, N=N, sem=sem, io=io, mode=mon.split('-')[1]))
     # (2c) pastified online monitors: the io declarations must survive pastify()
     IMPL = ('implies', ('geq', X, ('const', 3.0)), ('geq', Y, ('const', 0.5)))
     for f in [('always_t', IMPL, 0, 1), ('eventually_t', ('geq', X, C1), 0, 2), ('and', ('next', ('leq', X, C1)), ('geq', Y, C1)),
